@@ -4,7 +4,7 @@
     [Print Assumptions] beneath. *)
 From Irismod Require Import Service.Model Service.Proofs Service.ProofsHist Service.ProofsEscrow
   Service.ProofsSched Service.ProofsBatch Service.ProofsLiab Service.ProofsTally Service.ProofsLive
-  Service.ProofsModule Service.ProofsFresh Service.ProofsCallback Service.ProofsSchedule.
+  Service.ProofsModule Service.ProofsFresh Service.ProofsCallback Service.ProofsSchedule Service.ProofsModuleHist Service.ProofsOutcome.
 
 (** Over EVERY history (any list of steps: messages of any kind and content, block ends,
     rate changes, transfers, module calls) from any initial height, time and ledger: the
@@ -21,24 +21,36 @@ Theorem request_single_outcome :
 Proof. exact single_outcome_lemma. Qed.
 Print Assumptions request_single_outcome.
 
-(** Over EVERY history with fresh context ids: a stored request is never active after its
+(** The same on chains WITH a module-served service (whose call creates and answers a request
+    inside the message), for histories whose context-creating transactions have distinct hashes;
+    proved with batch numbers instead of request heights (ProofsOutcome.v, invariant [OInv]). *)
+Theorem request_single_outcome_with_module_services :
+  forall c steps h0 t0 l0,
+    NoDup (create_txhs steps) ->
+    let s := run c (init h0 t0 l0) steps in
+    NoDup (map fst (g_out s))
+    /\ (forall rid q, In rid (map fst (g_out s)) -> get rid (reqs s) = Some q -> q_active q = false).
+Proof. exact single_outcome_m_lemma. Qed.
+Print Assumptions request_single_outcome_with_module_services.
+
+(** Over EVERY history whose context-creating transactions have distinct hashes (with or without a
+    module-served service): a stored request is never active after its
     expiration height (the end blocker of that height has expired it: its context's expiry entry
     was due exactly then), and a stored request that is no longer active has its outcome in the
     log.  With [request_single_outcome]: every stored request whose expiration height has passed
     has EXACTLY one outcome (answered or expired), and before that at most one. *)
 Theorem request_outcome_by_expiry :
   forall c steps h0 t0 l0,
-    c_msvc c < 0 ->
-    fresh_history c (init h0 t0 l0) steps ->
+    NoDup (create_txhs steps) ->
     let s := run c (init h0 t0 l0) steps in
     forall rid q, get rid (reqs s) = Some q ->
       (q_active q = true -> height s <= q_exp q)
       /\ (q_active q = false -> In rid (map fst (g_out s))).
-Proof. exact outcome_by_expiry_lemma. Qed.
+Proof. exact outcome_by_expiry_m_lemma. Qed.
 Print Assumptions request_outcome_by_expiry.
 
-(** Over EVERY history in which context ids are fresh ([fresh_history]: no context id is issued
-    while a context with that id is still stored): (1) every active request belongs to the
+(** Over EVERY history whose context-creating transactions have distinct hashes (with or without a
+    module-served service): (1) every active request belongs to the
     RUNNING, CURRENT batch of a context that is still stored — so requests of a completed batch,
     of an earlier batch, or of a removed (one-shot, killed, exhausted) context are never active
     and can never be answered; (2) a running batch never has more active requests than
@@ -47,15 +59,14 @@ Print Assumptions request_outcome_by_expiry.
     [nact id m] = number of active requests of context [id]. *)
 Theorem active_requests_belong_to_the_running_batch :
   forall c steps h0 t0 l0,
-    c_msvc c < 0 ->
-    fresh_history c (init h0 t0 l0) steps ->
+    NoDup (create_txhs steps) ->
     let s := run c (init h0 t0 l0) steps in
     (forall rid q, get rid (reqs s) = Some q -> q_active q = true ->
        exists x, get (rid_ctx rid) (ctxs s) = Some x /\ x_brun x = true /\ rid_b rid = x_batch x)
     /\ (forall id x, get id (ctxs s) = Some x -> x_brun x = true ->
           nact id (reqs s) <= x_breq x - x_bresp x /\ has id (expmark s) = true)
     /\ (forall h id x, In (h, id) (newq s) -> get id (ctxs s) = Some x -> x_brun x = false /\ get id (newmark s) = Some h).
-Proof. exact active_requests_lemma. Qed.
+Proof. exact active_requests_m_lemma. Qed.
 Print Assumptions active_requests_belong_to_the_running_batch.
 
 (** A response succeeds only for a stored, still active request and only from the provider it
@@ -131,13 +142,13 @@ Print Assumptions fresh_history_from_distinct_hashes.
     module-owned context whose batch is closed (completed by responses, or expired). *)
 Theorem callback_exactly_once_per_batch :
   forall c steps h0 t0 l0,
-    c_msvc c < 0 -> NoDup (create_txhs steps) ->
+    NoDup (create_txhs steps) ->
     let s := run c (init h0 t0 l0) steps in
     NoDup (resp_keys (cblog s))
     /\ (forall id x, get id (ctxs s) = Some x -> x_brun x = true -> ~ In (id, x_batch x) (resp_keys (cblog s)))
     /\ (forall id x, get id (ctxs s) = Some x -> x_mod x = true -> x_brun x = false -> 1 <= x_batch x ->
           In (id, x_batch x) (resp_keys (cblog s))).
-Proof. exact callback_exactly_once_per_batch_lemma. Qed.
+Proof. exact callback_exactly_once_per_batch_m_lemma. Qed.
 Print Assumptions callback_exactly_once_per_batch.
 
 (** Every invocation appends one entry for the CURRENT batch of the stored context, carrying the
@@ -177,13 +188,13 @@ Print Assumptions expiry_completes_only_a_running_batch.
     never earlier; pause / start can neither advance nor duplicate it. *)
 Theorem no_batch_before_its_scheduled_height :
   forall c pre post h0 t0 l0 id H,
-    c_msvc c < 0 -> fresh_history c (init h0 t0 l0) (pre ++ post) ->
+    NoDup (create_txhs (pre ++ post)) ->
     let s := run c (init h0 t0 l0) pre in
     let s' := run c (init h0 t0 l0) (pre ++ post) in
     get id (newmark s) = Some H ->
     (forall e, In e (g_batches s') -> ~ In e (g_batches s) -> b_ctx e = id -> H <= b_h e)
     /\ (get id (newmark s') = Some H \/ H <= height s').
-Proof. exact no_batch_before_its_scheduled_height_lemma. Qed.
+Proof. exact no_batch_before_its_scheduled_height_m_lemma. Qed.
 Print Assumptions no_batch_before_its_scheduled_height.
 
 (** Starting a paused context enqueues a new batch (at the current height) only when NEITHER the
